@@ -24,7 +24,22 @@ impl TagResolver<'_> {
     /// ITU-T X.680 | ISO/IEC 8824-1, 8.6
     /// ITU-T X.680 | ISO/IEC 8824-1, 41, table 8
     pub fn resolve_tag(&self, ty: &str) -> Option<Tag> {
-        self.model
+        self.resolve_tag_visiting(ty, &mut Vec::new())
+    }
+
+    /// `visiting` holds the (module, name) pairs of the type references that are being followed:
+    /// a reference that leads back to one of them (`A ::= A`) has no tag instead of being
+    /// followed forever
+    fn resolve_tag_visiting(&self, ty: &str, visiting: &mut Vec<(String, String)>) -> Option<Tag> {
+        if visiting
+            .iter()
+            .any(|(module, name)| module.eq(&self.model.name) && name.eq(ty))
+        {
+            return None;
+        }
+        visiting.push((self.model.name.clone(), ty.to_string()));
+        let tag = self
+            .model
             .imports
             .iter()
             .find(|import| import.what.iter().any(|what| what.eq(ty)))
@@ -35,13 +50,18 @@ impl TagResolver<'_> {
                     model,
                     scope: self.scope,
                 }
-                .resolve_tag(ty)
+                .resolve_tag_visiting(ty, visiting)
             })
             .or_else(|| {
                 self.model.definitions.iter().find(|d| d.0.eq(ty)).and_then(
-                    |Definition(_name, asn)| asn.tag.or_else(|| self.resolve_type_tag(&asn.r#type)),
+                    |Definition(_name, asn)| {
+                        asn.tag
+                            .or_else(|| self.resolve_type_tag_visiting(&asn.r#type, visiting))
+                    },
                 )
-            })
+            });
+        visiting.pop();
+        tag
     }
 
     /// ITU-T X.680 | ISO/IEC 8824-1, 8.6
@@ -55,6 +75,14 @@ impl TagResolver<'_> {
     /// ITU-T X.680 | ISO/IEC 8824-1, 8.6
     /// ITU-T X.680 | ISO/IEC 8824-1, 41, table 8
     pub fn resolve_type_tag(&self, ty: &Type) -> Option<Tag> {
+        self.resolve_type_tag_visiting(ty, &mut Vec::new())
+    }
+
+    fn resolve_type_tag_visiting(
+        &self,
+        ty: &Type,
+        visiting: &mut Vec<(String, String)>,
+    ) -> Option<Tag> {
         match ty {
             Type::Boolean => Some(Tag::DEFAULT_BOOLEAN),
             Type::Integer(_) => Some(Tag::DEFAULT_INTEGER),
@@ -67,8 +95,8 @@ impl TagResolver<'_> {
             Type::String(_, Charset::Utf8) => Some(Tag::DEFAULT_UTF8_STRING),
             Type::String(_, Charset::Ia5) => Some(Tag::DEFAULT_IA5_STRING),
             Type::Null => Some(Tag::DEFAULT_NULL),
-            Type::Optional(inner) => self.resolve_type_tag(inner),
-            Type::Default(inner, ..) => self.resolve_type_tag(inner),
+            Type::Optional(inner) => self.resolve_type_tag_visiting(inner, visiting),
+            Type::Default(inner, ..) => self.resolve_type_tag_visiting(inner, visiting),
             Type::Sequence(_) => Some(Tag::DEFAULT_SEQUENCE),
             Type::SequenceOf(_, _) => Some(Tag::DEFAULT_SEQUENCE_OF),
             Type::Set(_) => Some(Tag::DEFAULT_SET),
@@ -82,7 +110,10 @@ impl TagResolver<'_> {
                             .map(|extension_after| extension_after + 1)
                             .unwrap_or_else(|| choice.len()),
                     )
-                    .map(|v| v.tag().or_else(|| self.resolve_type_tag(v.r#type())))
+                    .map(|v| {
+                        v.tag()
+                            .or_else(|| self.resolve_type_tag_visiting(v.r#type(), visiting))
+                    })
                     .collect::<Option<Vec<Tag>>>()?;
                 tags.sort();
                 if cfg!(feature = "debug-proc-macro") {
@@ -91,7 +122,7 @@ impl TagResolver<'_> {
                 tags.into_iter().next()
             }
             Type::TypeReference(inner, tag) => {
-                let tag = (*tag).or_else(|| self.resolve_tag(inner.as_str()));
+                let tag = (*tag).or_else(|| self.resolve_tag_visiting(inner.as_str(), visiting));
                 if cfg!(feature = "debug-proc-macro") {
                     println!("resolved :: {}::Tag = {:?}", inner, tag);
                 }
